@@ -59,12 +59,13 @@ class _DumpsSeam:
     loads = staticmethod(eio_json.loads)
 
 
-def _origin_policy(fl, ci, cred, ki, pi, tail, fi, with_origin):
+def _origin_policy(fl, ci, cred, ki, pi, tail, fi, with_origin, prior=False):
     cfg, fwd, kind = CFGS[ci], FWD[fi], KINDS[ki]
     origin = PREFIX[pi] + tail
     if with_origin and origin == '':
         return ''
-    real_cfg = _pred if cfg == 'CALLABLE' else cfg
+    # the server gets its own copy of a list configuration (an implementation that mutates it must not change the oracle's)
+    real_cfg = _pred if cfg == 'CALLABLE' else (list(cfg) if isinstance(cfg, list) else cfg)
     old_json = packet.Packet.json
     packet.Packet.json = _DumpsSeam
     sut = mk(fl, async_handlers=False, cors_allowed_origins=real_cfg, cors_credentials=bool(cred))
@@ -76,6 +77,15 @@ def _origin_policy(fl, ci, cred, ki, pi, tail, fi, with_origin):
             sid = sut.sids()[0]
             sut.app_send(sid, 'queued')
             sut.settle()
+        if prior:
+            # an earlier, ALLOWED cross-origin request answered by the same server object (nothing it leaves behind may
+            # change the verdict on the request under test)
+            good = {None: 'http://' + HOST, 'CALLABLE': 'https://x.example'}.get(cfg if not isinstance(cfg, (list, tuple)) else 0, A1)
+            pr = sut.request('OPTIONS', 'transport=polling&EIO=4', {'Host': HOST, 'Origin': good})
+            sut.settle()
+            if cfg != [] and (not pr.done or sut.status(pr) != 200):
+                return fail(PROP, 'ORIGIN-WRONGLY-REFUSED', 'allowed Origin %r (config %r, OPTIONS) answered %r' % (
+                    good, cfg, sut.status(pr) if pr.done else None), flavour=sut.flavour)
         hdr = {'Host': HOST}
         if fwd:
             hdr.update(fwd)
@@ -157,18 +167,18 @@ def origin_symbolic_tail(fl: int, ci: int, cred: bool, ki: int, pi: int, tail: s
 
 
 @cond(quick=dict(timeout=170, parts=dict(FL=[0, 1])), thorough=dict(timeout=900, parts=dict(FL=[0, 1])))
-def origin_kinds_and_forwarding(fl: int, ci: int, cred: bool, ki: int, pi: int, fi: int, with_origin: bool) -> str:
+def origin_kinds_and_forwarding(fl: int, ci: int, cred: bool, ki: int, pi: int, fi: int, with_origin: bool, prior: bool) -> str:
     """
     pre: fl == P.FL and 0 <= ci < len(CFGS) and 0 <= ki < len(KINDS) and 0 <= pi < len(PREFIX) and 0 <= fi < len(FWD)
     pre: (fi == 0 or ci == 0) and (with_origin or pi == 0) and (ki >= 3 or fi > 0 or not with_origin)
     post: _ == ''
     """
     # every request kind (incl. upgrade / websocket open / OPTIONS), X-Forwarded-* combinations, requests without Origin
-    return verdict(untraced(_kinds, fl, ci, cred, ki, pi, fi, with_origin))
+    return verdict(untraced(_kinds, fl, ci, cred, ki, pi, fi, with_origin, prior))
 
 
-def _kinds(fl, ci, cred, ki, pi, fi, with_origin):
-    return _origin_policy(fl, ci, cred, ki, pi, '', fi, with_origin)
+def _kinds(fl, ci, cred, ki, pi, fi, with_origin, prior=False):
+    return _origin_policy(fl, ci, cred, ki, pi, '', fi, with_origin, prior)
 
 
 from vf.validate.stubs import ALL as VALIDATE  # noqa: E402  (stub-vs-real conformance, run before the obligations)
